@@ -77,7 +77,7 @@ def _hybrid(chk, repo):
     ci = repo.cls(HG)
     step_src = repo.method(ci, "step")[1]
     # structural normal form; private helpers inlined except the ones the rules are about
-    step = canon_keep(repo, ci, step_src, keep={"_set_target", "_store_samples", "_set_targets"})
+    step = canon_keep(repo, ci, step_src, keep={"_set_target", "_store_samples", "_set_targets"}, subst="bool")      # named booleans folded into their tests
     g = CFG(step)
     loop = _single_loop(step, f"{ci.qual}.step")
     pv = loop.target.id if isinstance(loop.target, ast.Name) else None
@@ -129,7 +129,9 @@ def _hybrid(chk, repo):
     wbs = [n for n in g.nodes if n.ast is not None and is_writeback(n)]
     ok = bool(wbs) and _every_path_through_body_passes(g, itn, is_writeback)
     _exw = Expander(step)
-    vals_ok = all(any(w_ in unparse(_exw.expand(n.ast.value, _exw.cfg.stmt_node_containing(n.ast) or n)) for w_ in ("sampler.current_point", f"self.samplers[{pv}].current_point")) for n in wbs)
+    # ... whichever definition of a local holding it reaches the store (`p = sampler.current_point; if ..: p = p.reshape(-1); store p`)
+    vals_ok = all(any(w_ in unparse(x_) for w_ in ("sampler.current_point", f"self.samplers[{pv}].current_point"))
+                  for n in wbs for x_ in _exw.expand_all(n.ast.value, _exw.cfg.stmt_node_containing(n.ast) or n))
     chk.add("C09-R3", f"{ci.qual}.step/write-back", ok and vals_ok, site(repo, wbs[0].ast if wbs else loop),
             f"self.current_samples[{pv}] = sampler.current_point on every path through the loop body",
             "some path through the loop body reaches the next block without writing the block's new value back to current_samples "
@@ -193,7 +195,7 @@ def _hybrid(chk, repo):
         if not [n for n in fn.body if isinstance(n, (ast.For, ast.While))]:
             # the sweep loop moved into a private helper shared by sample and warmup: inlined again (a default such as tune_interval=None is folded)
             from .common import canon_keep
-            fn = canon_keep(repo, ci, fn_src, {"step", "tune", "_store_samples", "_set_targets", "_set_target"})
+            fn = canon_keep(repo, ci, fn_src, {"step", "tune", "_store_samples", "_set_targets", "_set_target"}, subst="bool")
         lp = _single_loop(fn, f"{ci.qual}.{m}")
         idx = [(i, unparse(s)) for i, s in enumerate(lp.body) if isinstance(s, ast.Expr)]
         i_step = [i for i, t in idx if t == "self.step()"]
